@@ -526,6 +526,50 @@ func checkC05(c *Ctx, r *Report) {
 	// ---- R5 ---------------------------------------------------------------
 	r5 := r.Rule("C05-R5", "E1/E3", 5, "at most one dial per address per worker: tracked on lookup miss only; marked dialed before the dial is started; started only from the timer arm")
 	trT := dwT + ".trackedDials"
+	// one key per address, everywhere: every lookup, insertion and removal in trackedDials is keyed by the address's
+	// bytes (string(addr.Bytes())); an access keyed otherwise (addr.String()) silently misses the entry
+	{
+		nAcc := 0
+		isTracked := func(m ssa.Value) bool { return isLoadOfField(trT)(strip2(m)) }
+		keyOK := func(k ssa.Value) bool {
+			return isResultOfCall(strip(k), 0, "(github.com/multiformats/go-multiaddr.Multiaddr).Bytes") != nil
+		}
+		for _, f := range c.FnsOfPkg(swarmP) {
+			for _, in := range findInstrsIn(f, func(in ssa.Instruction) bool {
+				switch x := in.(type) {
+				case *ssa.MapUpdate:
+					return isTracked(x.Map)
+				case *ssa.Lookup:
+					return isTracked(x.X)
+				case *ssa.Call:
+					return calleeKey(x) == "builtin.delete" && len(x.Call.Args) == 2 && isTracked(x.Call.Args[0])
+				}
+				return false
+			}) {
+				var k ssa.Value
+				switch x := in.(type) {
+				case *ssa.MapUpdate:
+					k = x.Key
+				case *ssa.Lookup:
+					k = x.Index
+				case *ssa.Call:
+					k = x.Call.Args[1]
+				}
+				nAcc++
+				// a key taken from ranging over the map itself is a key of the map
+				if ex, isEx := strip(k).(*ssa.Extract); isEx {
+					if nx, isNx := ex.Tuple.(*ssa.Next); isNx {
+						if rg, isRg := nx.Iter.(*ssa.Range); isRg && isTracked(rg.X) {
+							r5.OK(fnKey(c.Root(f))+": trackedDials access keyed by the address bytes", instrPos(in), 1, "key from ranging over trackedDials")
+							continue
+						}
+					}
+				}
+				r5.Check(keyOK(k), fnKey(c.Root(f))+": trackedDials access keyed by the address bytes", instrPos(in), 1, "", "the entry is looked up / removed under another key than it was stored under: the access silently misses (a refused address is never forgotten, a joiner is answered from a stale entry)", describeVal(strip(k)))
+			}
+		}
+		r5.Check(nAcc >= 4, "trackedDials accesses found", token.NoPos, nAcc, "", "", fmt.Sprint(nAcc))
+	}
 	if f := r5.need(loopK); f != nil {
 		ins := findInstrs(f, func(in ssa.Instruction) bool { _, ok := in.(*ssa.MapUpdate); return ok && isFieldWrite(in, trT) })
 		r5.Check(len(ins) == 1, loopK+": one insertion into trackedDials", f.Pos(), len(ins), "", "", "")
